@@ -242,6 +242,15 @@ func runC19(rep *Report, tier string, seed int64, replay string) {
 		var spans [][2]int
 		for _, r := range pending {
 			ml := r.modelLines()
+			// the same actions once more in one line for the mailbox refinement monitor: M1 and the abstract
+			// per-key mailbox specification run in lockstep through the abstraction function
+			var acts []string
+			for _, l := range ml {
+				if strings.HasPrefix(l, "bc ") && l != "bc state" && !strings.Contains(l, "pubSendClosed") {
+					acts = append(acts, l[3:])
+				}
+			}
+			ml = append(ml, "mb "+strings.Join(acts, " / "))
 			spans = append(spans, [2]int{len(lines), len(lines) + len(ml)})
 			lines = append(lines, ml...)
 		}
@@ -339,6 +348,17 @@ func runC19(rep *Report, tier string, seed int64, replay string) {
 	rep.Extra["scenarios"] = len(jobs)
 }
 
+func problemKind(p string) string {
+	if strings.HasPrefix(p, "panic") {
+		return "panic " + p[strings.LastIndex(p, ": ")+2:]
+	}
+	// drop the operation index so that "2:F0 … is blocked" and "1:F0 … is blocked" are one kind
+	if i := strings.Index(p, ":"); i > 0 && i < 3 {
+		return p[i+1:]
+	}
+	return p
+}
+
 func judgeBcRun(rep *Report, r *bcRun, ans []string) {
 	opsStr := []string{}
 	for _, o := range r.Ops {
@@ -357,6 +377,32 @@ func judgeBcRun(rep *Report, r *bcRun, ans []string) {
 		"note":     "a Go select with several ready cases picks at random: repeat the schedule (the replay runs it 16 times)",
 	}
 	rep.sample(map[string]any{"ops": opsStr, "schedule": r.Schedule, "outcomes": r.Outcome, "events": len(r.Trace)})
+	if len(r.Problems) > 0 && ans != nil {
+		// every oracle failure is re-run in isolation before it is reported: the same scenario and schedule, up to 8 times
+		// (a Go select with several ready cases flips a coin, so a genuine failure may need a few repetitions; a hiccup of
+		// the settle detection on a loaded machine does not come back)
+		confirmed := map[string]bool{}
+		for k := 0; k < 8 && len(confirmed) == 0; k++ {
+			rr := runBcSchedule(r.Ops, r.Schedule)
+			rep.Evaluations++
+			for _, p2 := range rr.Problems {
+				for _, p1 := range r.Problems {
+					if problemKind(p1) == problemKind(p2) {
+						confirmed[problemKind(p1)] = true
+					}
+				}
+			}
+		}
+		var keep []string
+		for _, p := range r.Problems {
+			if confirmed[problemKind(p)] {
+				keep = append(keep, p)
+			}
+		}
+		n, _ := rep.Extra["unconfirmed_oracle_failures"].(int)
+		rep.Extra["unconfirmed_oracle_failures"] = n + len(r.Problems) - len(keep)
+		r.Problems = keep
+	}
 	for _, p := range r.Problems {
 		// key: the scenario's operation multiset + the kind of problem (not the schedule)
 		kind := p
@@ -380,6 +426,11 @@ func judgeBcRun(rep *Report, r *bcRun, ans []string) {
 		if strings.HasPrefix(a, "ok") {
 			rep.ModelSteps++
 		}
+	}
+	mb := ans[len(ans)-1]
+	ans = ans[:len(ans)-1]
+	if !strings.HasPrefix(mb, "ok ") && len(r.Panics) == 0 {
+		rep.addViolation("correspondence", "C19:mailbox-refinement:"+strings.Join(opsStr, ","), "the run is not a run of the abstract mailbox specification through the abstraction function: "+mb, replay)
 	}
 	last := ans[len(ans)-1]
 	if want := r.expectedSummary(); last != want {
